@@ -95,6 +95,43 @@ def flat_oracle(term, smart):
     return L, bad
 
 
+def value_histories(tier, r):
+    """built-in value trees with strings (pformat level): each value is printed in ONE process under a sequence
+    of configurations sharing the page width - narrow ribbon first, then ribbons at least as wide as its one-line
+    text - and again at another width"""
+    import valgen
+    out = []
+    n = 250 if tier == 'quick' else 4000
+    for _ in range(n):
+        t = valgen.rand_val(r, r.randint(1, 8), set())
+        words = ''.join(r.choice('abcdefg ') for _ in range(r.randint(8, 50)))
+        leaf = r.choice([('str', words), ('bytes', words.encode()), ('str', 'x' * r.randint(10, 40))])
+        t = r.choice([('list', [leaf]), ('dict', [(('str', 'key'), leaf)]), ('tuple', [t, leaf]), ('list', [leaf, t]),
+                      ('dict', [(leaf, t)]), ('set', [leaf])])
+        out.append(t)
+    return out
+
+
+def value_oracle(t):
+    """-> None or a failure record: a value whose one-line text has L columns is printed as that line under every
+    (width, ribbon) with L <= width and L <= ribbon, whatever was printed before"""
+    import printercheck as PC
+    import valgen
+    v, _sx = valgen.build(t)
+    one, ws = PC.impl_pformat(v, dict(width=BIG, ribbon_width=BIG))
+    if one.startswith('EXC ') or '\n' in one:
+        return None
+    L = len(one)
+    for w in (L + 9, L, 97 if L <= 97 else L + 1):
+        seq = [max(1, L // 2), L, w, max(1, L - 1), w]
+        for rb in seq:
+            text, _ws = PC.impl_pformat(v, dict(width=w, ribbon_width=rb))
+            if L <= w and L <= rb and text != one:
+                return {'term': PC.jsonable(t), 'L': L, 'width': w, 'ribbon_width': rb, 'sequence': seq,
+                        'impl': text, 'one_line': one}
+    return None
+
+
 def config_oracle(term, smart, w, frac):
     """the same clause at an arbitrary ribbon: a single-line layout of L columns
     must be kept at (w, frac) whenever L <= w and L <= the ribbon width the
@@ -241,6 +278,17 @@ def main(tier):
                 run.violation({'kind': 'probe', 'detail': msg, 'probe': list(case), 'term': probe_term(pp_, a_, b_, k_, t_),
                                'smart': smart_, 'width': w_, 'ribbon_frac': frac_})
         run.count(nprobe)
+        nval = 0
+        for t in value_histories(tier, __import__('common').rng(PROP + '/values')):
+            if len(run.violations) >= 9:
+                break
+            nval += 1
+            bad = value_oracle(t)
+            if bad:
+                bad['kind'] = 'value-fits-but-broken'
+                run.violation(bad)
+        run.count(nval)
+        run.coverage['value_histories'] = nval
         run.coverage['probe_cases'] = nprobe
         run.coverage['config_oracle_checked'] = cfg_checked
         run.coverage['single_line_checked'] = checked
@@ -253,7 +301,7 @@ def main(tier):
             'whose layout at width 10**6 is a single line of L columns, the layout at L..L+3 (ribbon=width) must be '
             'that same stream, and the document wrapped in a group is laid out as its flat text (read off the term) at widths L, L+1, L+7, 10**6; on the probe family  prefix group(a LINE b) [nest(k, HARDLINE t)]  the group may be broken '
             'only if its flat line passes page or ribbon or (smart only) the deeper-indented following line passes the '
-            'page. non-trivial = distinct documents whose stream differs between two configurations')
+            'page; values containing strings printed through pformat under sequences of (width, ribbon) sharing the width, narrow ribbon first: one line whenever the one-line text fits page and ribbon. non-trivial = distinct documents whose stream differs between two configurations')
         for d in dis[:3]:
             run.sample({'disagreement': d})
         for rec in results[:2] + results[-3:]:
@@ -268,6 +316,11 @@ def replay(path):
     if 'term' not in p:
         print(json.dumps(p, indent=1)[:3000])
         return 1
+    if p.get('kind') == 'value-fits-but-broken':
+        import printercheck as PC
+        bad = value_oracle(PC.unjson(p['term']))
+        print('oracle:', bad)
+        return 1 if bad else 0
     if p.get('kind') == 'probe':
         msg = probe_oracle(*p['probe'])
         print('oracle:', msg)
